@@ -476,17 +476,20 @@ func checkExtractShape(w *World, r *Result) {
 	// handler forms
 	pf := w.MustFunc("analysis/httpapi.parseEndpointFunc")
 	forms := map[string]bool{}
-	ast.Inspect(pf.Decl.Body, func(x ast.Node) bool {
-		if ta, ok := x.(*ast.TypeAssertExpr); ok && ta.Type != nil {
-			forms[es(ta.Type)] = true
-		}
-		if cc, ok := x.(*ast.CaseClause); ok {
-			for _, e := range cc.List {
-				forms[es(e)] = true
+	// the resolution may be spread over helpers of the package (one per handler form)
+	for _, cf := range calleeClosure(w, pf, 2) {
+		ast.Inspect(cf.Decl.Body, func(x ast.Node) bool {
+			if ta, ok := x.(*ast.TypeAssertExpr); ok && ta.Type != nil {
+				forms[es(ta.Type)] = true
 			}
-		}
-		return true
-	})
+			if cc, ok := x.(*ast.CaseClause); ok {
+				for _, e := range cc.List {
+					forms[es(e)] = true
+				}
+			}
+			return true
+		})
+	}
 	for _, f := range []string{"*ast.SelectorExpr", "*ast.Ident", "*ast.FuncLit", "*types.PkgName", "*types.Var"} {
 		r.cond(forms[f], "SHP-C13h", pf.Name, "handler form "+f, fnPos(w, pf), "handled", "handlers given in this form are no longer resolved")
 	}
